@@ -112,7 +112,11 @@ def strategy(tier):
     return st.fixed_dictionaries(
         {
             "inst": inst,
-            "filters": gen.filter_configs(custom=True),
+            "filters": gen.weighted(
+                (6, gen.filter_configs(custom=True)),
+                # a user filter that may reject every candidate, also the only one left
+                (1, st.sampled_from([["custom_reserve_machine0"], ["custom_last_job_only", "custom_reserve_machine0"], ["custom_reserve_machine0", "non_idle_machines"]])),
+            ),
             "events": gen.sized_lists(ev, 70),
             "observers": gen.weighted((2, st.just([])), (1, obs.feature_configs(min_size=1, max_size=3))),
         }
